@@ -153,6 +153,10 @@ R(_K2, "len(t_d)==5", "constructor message '5 detonation times must be specified
 R(_K2, "t_d_i>=t_d3+R(1/D1+1/D2)-|a_i|/D2", "module docstring displayed inequality; constructor message 'Detonation time i must be no less than'",
   violating=[{"t_d": [2.0, -1.0, 0.0, 1.0, 2.0]}, {"t_d": [-6.0, 1.0, 0.0, 1.0, 2.0]}], boundary=[{"t_d": [2.0, -0.5, 0.0, 1.0, 2.0]}], strict=False,
   admissible=[{"t_d": [2.0, -0.5, 0.0, 1.0, 2.0]}])
+# the same inequality with a NON-default centre detonation time t_d3 = 3 (bound for the detonator at 5: 3 + 4.5 - 5 = 2.5): a check
+# that hard-codes the default t_d3 = 0 lets the first vector through (seeded change S-C20-1)
+R(_K2, "t_d_i>=t_d3+R(1/D1+1/D2)-|a_i|/D2 (t_d3 != 0)", "module docstring displayed inequality, with a non-default centre detonation time",
+  violating=[{"t_d": [2.0, 1.0, 3.0, 1.0, 2.0]}, {"t_d": [2.0, 2.4, 3.0, 2.6, 2.0]}], admissible=[{"t_d": [2.0, 2.6, 3.0, 2.6, 2.0]}])
 R(_K3, "R>0", "constructor message 'Inert obstacle radius must be > 0'", violating=[{"R": -1.0}], boundary=[{"R": 0.0}], strict=True, admissible=[{"R": 0.1}])
 R(_K3, "D>0", "constructor message", violating=[{"D": -1.0}], boundary=[{"D": 0.0}], strict=True)
 R(_K3, "len(x_d)==geometry", "constructor message", violating=[{"x_d": (0.0, 0.0, 5.0)}, {"geometry": 3}])
@@ -210,6 +214,11 @@ D(_EA, "x>=0", "_run message 'HE must have positive x-position'", pts=[[-1.0, 2.
 # alpha = 0 is admissible by the constructor message ('Alpha must be >= 0'): the call must then work or be rejected with ValueError
 SPECIAL_INDOMAIN.append(dict(cls=_RS, cfg={"alpha": 0.0}, doc="constructor message 'Alpha must be >= 0' admits alpha = 0"))
 SPECIAL_INDOMAIN.append(dict(cls=_EA, cfg={"alpha": 0.0}, doc="constructor message 'Alpha must be >= 0' admits alpha = 0"))
+# Sedov's special singularities hit EXACTLY in floating point: omega3 = j(2 - gamma) and omega2 = (2(gamma-1) + j)/gamma are
+# admissible (0 <= omega < geometry) and the constructor documents a special branch for them (seeded change S-C20-3)
+for _g, _ga, _om in ((2, 1.5, 1.0), (1, 1.5, 0.5), (3, 1.5, 1.5), (2, 1.25, 1.5), (3, 2.0, 2.5)):
+    SPECIAL_INDOMAIN.append(dict(cls="sedov.sedov.Sedov", cfg={"geometry": _g, "gamma": _ga, "omega": _om},
+                                 doc="sedov.py: special_singularity 'omega2'/'omega3' branch for |denom| <= 1e-4"))
 
 # =============================================================================================== Blake
 _B = "blake.blake.Blake"
@@ -247,6 +256,10 @@ R(_P, "up>=0", "constructor message 'Piston velocity must be >= 0'", violating=[
 R(_P, "model in {hypo,hyperIfin,hyperFin}", "help string and constructor message", violating=[{"model": "hyper"}, {"model": ""}, {"model": 1}],
   admissible=[{"model": "hypo"}, {"model": "hyperFin"}])
 D(_P, "t<=max(x)/wv_el", "_run message 'Elastic Wave went beyond xmax ... reduce time or increase xmax'", t=5.0, pts=[0.2, 0.5, 1.0])
+# just beyond the guard (default material: wv_el = 0.6518, t_max = max(x)/wv_el = 1.5341; the plastic front reaches x = 1 only at
+# 1.816): a guard that tests the wrong (slower) front lets these through (seeded change S-C20-2)
+D(_P, "t<=max(x)/wv_el", "as above, 3 % beyond the guard", t=1.5825, pts=[0.2, 0.5, 1.0])
+D(_P, "t<=max(x)/wv_el", "as above, 13 % beyond the guard", t=1.74, pts=[0.2, 0.5, 1.0])
 
 # =============================================================================================== Guderley / Rod1D (checked by the library at call time)
 _G = "guderley.guderley.Guderley"
